@@ -518,6 +518,23 @@ def run_case(case, wd: Path, chooser_factory):
             gate.fail_at = keep
             out = wd / 'out'
             out.mkdir()
+            # two writer threads that are about to create the same directory do it at the same moment
+            orig_mkdir = os.mkdir
+            mk_cv, mk_wait = threading.Condition(), {}
+
+            def mkdir_together(path, *a, **k):
+                key = os.fspath(path)
+                if case['rendezvous'] and str(key).startswith(mine):
+                    with mk_cv:
+                        if mk_wait.get(key):
+                            mk_wait[key] = 0
+                            mk_cv.notify_all()
+                        else:
+                            mk_wait[key] = 1
+                            mk_cv.wait(0.01)
+                            mk_wait.pop(key, None)
+                return orig_mkdir(path, *a, **k)
+            os.mkdir = mkdir_together
             t = asyncio.ensure_future(repo2.restore(path=out))
             try:
                 await asyncio.wait_for(drive(gate, t, chooser), 25)
@@ -525,6 +542,8 @@ def run_case(case, wd: Path, chooser_factory):
                 obs['problems'].append(('restore does not terminate under this completion order', 'hang'))
                 t.cancel()
                 return
+            finally:
+                os.mkdir = orig_mkdir
             exc = t.exception()
             obs['restore_max_outstanding'] = gate.max_outstanding
             obs['rendezvous_met'] = proxy.met
@@ -568,10 +587,21 @@ def run_case(case, wd: Path, chooser_factory):
 def log_slots(repo, N, trace):
     """replace the repository's slot queue by one that records every token taken ('A') and put back ('R')"""
     class LoggingQueue(asyncio.PriorityQueue):
+        _loop_thread = None
+
         async def get(self):
+            self._loop_thread = threading.get_ident()
             item = await super().get()
             trace.append(['A', item])
             return item
+
+        def empty(self):
+            # the event loop looks at the pool, finds it empty and only THEN registers the waiter: widen that instant a little.
+            # A token put back through the loop (call_soon_threadsafe) cannot fall into it; one put back from another thread can.
+            e = super().empty()
+            if e and self._started and threading.get_ident() == self._loop_thread:
+                time.sleep(0.002)
+            return e
 
         def put_nowait(self, item):
             if self._started:
